@@ -54,6 +54,15 @@ def strip_setitem(v):
         if a is not None and a[0] == "fn" and a[1] == "setitem":
             base, idx, val = a[2]
             return base, idx, val
+        # c * setitem(x, row, 0) = setitem(c*x, row, 0): a common factor applied after the row store
+        if len(v.terms) == 1:
+            (m, c), = v.terms.items()
+            sets = [(at, e) for at, e in m if at[0] == "fn" and at[1] == "setitem"]
+            if len(sets) == 1 and sets[0][1] == 1:
+                base, idx, val = sets[0][0][2]
+                rest = Form({tuple((at, e) for at, e in m if at is not sets[0][0]): c})
+                if isinstance(base, Form) and isinstance(val, Form):
+                    return rest * base, idx, rest * val
     return v, None, None
 
 
